@@ -35,6 +35,12 @@ const smtpPath = "github.com/emersion/go-smtp"
 // Any type error, missing package or load failure is fatal (exit 2: the
 // checker is broken on this tree, never "held").
 func Load(dir string, tags string, goarch string) (*Program, error) {
+	return LoadOverlay(dir, tags, goarch, nil)
+}
+
+// LoadOverlay is Load with in-memory replacements of source files (used by the
+// rule-liveness bank: no copy of the repository is made on disk).
+func LoadOverlay(dir string, tags string, goarch string, overlay map[string][]byte) (*Program, error) {
 	env := append(os.Environ(), "GOFLAGS=-mod=mod", "GOPROXY=off", "GOSUMDB=off", "GOTOOLCHAIN=local", "GOWORK=off")
 	if goarch != "" {
 		env = append(env, "GOARCH="+goarch)
@@ -44,6 +50,9 @@ func Load(dir string, tags string, goarch string) (*Program, error) {
 		Dir:   dir,
 		Env:   env,
 		Tests: false,
+	}
+	if overlay != nil {
+		cfg.Overlay = overlay
 	}
 	if tags != "" {
 		cfg.BuildFlags = []string{"-tags=" + tags}
